@@ -391,6 +391,10 @@ func c17Limits(c *mon.Ctx) {
 				ps.RoomID = "!" + padRunes(200, 2) + ":a.example" // 211 code points, 411 bytes
 				also = "+room-id-over-255-bytes"
 			}
+			if lc.runes > 255 && lc.field != "sender" && n%3 == 2 && ver != gmsl.RoomVersionPseudoIDs {
+				ps.Sender = "@" + padRunes(200, 2) + ":a.example" // 211 code points, 411 bytes
+				also = "+sender-over-255-bytes"
+			}
 			val := map[string]string{"type": ps.Type, "sender": ps.Sender, "room_id": ps.RoomID}[lc.field]
 			if lc.field == "state_key" {
 				val = *ps.StateKey
@@ -443,6 +447,9 @@ func c17Limits(c *mon.Ctx) {
 				}
 				if also == "+room-id-over-255-bytes" {
 					rv.Set("room_id", ref.S(ps.RoomID))
+				}
+				if also == "+sender-over-255-bytes" {
+					rv.Set("sender", ref.S(ps.Sender))
 				}
 				uev, err := impl.NewEventFromUntrustedJSON(gen.Plain().Bytes(rv))
 				got = classify(uev, err)
